@@ -79,12 +79,17 @@ def gen_source(rng):
         spec["dialect"] = {"lon360": rng.random() < 0.3, "extra": extra, "start": rng.choice([0, 1]), "xyz_scale": rng.choice([1.0, 1.0, 2.0]), "edge_flip": rng.random() < 0.5, "int_coords": rng.random() < 0.35}
         if spec["dialect"]["int_coords"]:
             spec["jitter"] = 0.0
+        # connectivity typed as a caller would get it from a 32-bit file or np.int32 arithmetic
+        spec["dialect"]["dtype"] = rng.choice(["intp", "intp", "int32"])
+        spec["dialect"]["conn_order"] = rng.choice(["C", "C", "F"])
     elif r < 0.75:
         spec["prov"] = rng.choice(["vertices", "vertices_xyz", "vertices_xyz"])
         spec["dialect"] = {"xyz_scale": rng.choice([1.0, 1.0, 0.5, 2.0, 6371.0])}
     elif r < 0.9:
         spec["prov"] = rng.choice(["ugrid_mem", "ugrid_mem", "esmf_mem", "raw_ds"])
         spec["dialect"] = {"lon360": rng.random() < 0.5, "start": rng.choice([0, 1]), "spec": rng.choice([None, "custom"]), "esmf_float": rng.random() < 0.5}
+        if spec["prov"] == "ugrid_mem":
+            spec["dialect"].update(as_coords=rng.random() < 0.3, ugrid_edges=rng.random() < 0.4, edge_flip=rng.random() < 0.5, std_fill=rng.random() < 0.3)
     else:
         spec["prov"] = "ugrid_file"
         spec["dialect"] = {"lon360": rng.random() < 0.5, "start": rng.choice([0, 1]), "dtype": rng.choice(["int32", "int64"])}
